@@ -58,7 +58,7 @@ var c02BodyMuts = []string{"tx-drop", "tx-dup", "tx-swap", "tx-byte", "tx-other"
 var c02RcMuts = []string{"rc-drop", "rc-dup", "rc-swap", "rc-byte", "rc-empty", "rc-other-one"}
 var c02HdrMuts = []string{"hdr-field", "hdr-proof-byte", "hdr-proof-other", "hdr-header-other", "hdr-number"}
 var c02ByteMuts = []string{"bit", "bit", "trunc", "extend", "offset"}
-var c02KeyMuts = []string{"key-selector", "key-byte", "key-trunc", "key-extend", "key-number"}
+var c02KeyMuts = []string{"key-selector", "key-byte", "key-trunc", "key-extend", "key-number", "key-insert", "key-cut-front"}
 
 func genBlockRef(t *rapid.T, label string) blockRef {
 	if rapid.IntRange(0, 9).Draw(t, label+"genuine") < 5 {
@@ -437,6 +437,31 @@ func c02Mutate(cs *c02Case, m c02Mut, contKind int, other *histBlock, c *stats.C
 		}
 	case "key-extend":
 		cs.key = append(append([]byte{}, cs.key...), prfBytes(m.V, "kext", 1+m.A%4)...)
+	case "key-insert":
+		// bytes inserted between the selector and the body: the key still *ends* with the genuine hash / number
+		if len(cs.key) > 1 {
+			k := append([]byte{cs.key[0]}, prfBytes(m.V, "kins", 1+m.A%4)...)
+			if m.B%3 == 0 {
+				for i := 1; i < len(k); i++ {
+					k[i] = 0
+				}
+			}
+			cs.key = append(k, cs.key[1:]...)
+		}
+	case "key-cut-front":
+		// bytes removed behind the selector (all leading zero bytes of the body, or 1..3 bytes)
+		if len(cs.key) > 2 {
+			n := 1 + m.A%3
+			if m.B%2 == 0 {
+				n = 0
+				for 1+n < len(cs.key)-1 && cs.key[1+n] == 0 {
+					n++
+				}
+			}
+			if n > 0 && 1+n < len(cs.key) {
+				cs.key = append([]byte{cs.key[0]}, cs.key[1+n:]...)
+			}
+		}
 	case "key-number":
 		if len(cs.key) == 9 && cs.key[0] == 3 {
 			n := binary.LittleEndian.Uint64(cs.key[1:])
